@@ -195,3 +195,20 @@ Theorem failed_listen_leaves_unstarted :
     (forall k, ph s = Fresh -> find_a k (sts s') = Some StPending ->
        exists s1, step s' (StAtomic k) = Some s1 /\ ph s1 = Running /\ serve s1 = SInit).
 Proof. exact failed_listen_unstarted. Qed.
+
+(* Hijack: when a handler that hijacked its TCP connection returns, the server
+   never closes that connection, never reads from it or sets its deadline from
+   the connection loop again and starts no further handler on it; its only
+   remaining step is the deregistration (delete from srv.conns, wg.Done), after
+   which the worker is finished - so Shutdown does not wait for the connection *)
+Theorem hijacked_connection_is_released :
+  forall (s s' : state) (c : nat),
+    step s (HExitHj c) = Some s' ->
+    md s = TCP /\
+    (exists w, find_w c (workers s) = Some w /\ w_pc w = CHandler) /\
+    (exists w', find_w c (workers s') = Some w' /\ w_pc w' = CFin) /\
+    step s' (WClose c) = None /\ step s' (WCheck c) = None /\ step s' (WSetDl c) = None /\
+    step s' (Req c) = None /\ step s' (ReadErr c) = None /\ step s' (HEnter c) = None /\
+    exists s'', step s' (WFinish c) = Some s'' /\ wg s'' = pred (wg s') /\
+                exists w'', find_w c (workers s'') = Some w'' /\ w_pc w'' = CDone.
+Proof. exact hijack_exit_releases. Qed.
